@@ -190,6 +190,24 @@ def run(rep: Report, tier: str) -> None:
     rt = norm.term(rets[-1].value, ctx) if rets else ("unk", "")
     rep.check(bool(rets) and "yearly_gain_loss" in show(rt), rb, fi.module, fi.qualname, "returns the collected lines (sorted)", f"the function returns {show(rt)[:200]}", loc(fi.node))
 
+    # the lines are collected in a set of YearlyGainLoss: two lines with different keys must stay two elements
+    ygl_cls = prog.cls(CD, "YearlyGainLoss")
+    from .c17 import _eq_fields, _self_attrs
+
+    eqf = _eq_fields(prog, ygl_cls)
+    hs = prog.lookup_method(ygl_cls, "__hash__")
+    hsf = {a.lstrip("_") for a in _self_attrs(hs.node, hs.param_names[0] if hs.param_names else "self")} if hs is not None else None
+    need = {"year", "asset", "transaction_type", "is_long_term_capital_gains"}
+    eq_ok = eqf is None or need <= {a.lstrip("_") for a in eqf}
+    hash_ok = hsf is None or hsf <= {a.lstrip("_") for a in (eqf or need)}
+    # direct attribute reads only: an equality routed through a helper is judged on the helper's body
+    if eqf is not None and not eq_ok:
+        helpers = [n.func.attr for n in ast.walk(prog.lookup_method(ygl_cls, "__eq__").node) if isinstance(n, ast.Call) and isinstance(n.func, ast.Attribute) and isinstance(n.func.value, ast.Name) and n.func.attr in ygl_cls.methods]
+        for hname in helpers:
+            eqf = set(eqf) | _self_attrs(ygl_cls.methods[hname].node, ygl_cls.methods[hname].param_names[0])
+        eq_ok = need <= {a.lstrip("_") for a in eqf}
+    rep.check(eq_ok and hash_ok, ra, CD, "YearlyGainLoss.__eq__", "lines with different keys are different set elements (equality covers year, asset, type, long/short)", f"YearlyGainLoss equality reads {sorted(a.lstrip('_') for a in (eqf or []))} (hash: {sorted(hsf) if hsf is not None else 'default'}); the lines are collected in a set, so two lines whose keys differ only in a field equality ignores collapse into one and the fractions of the other belong to no line", loc(ygl_cls.node))
+
     # ---------------------------------------------------------------- C06.d (call site, from filter)
     init_fi = prog.func(CD, "ComputedData.__init__")
     rep.analysed(init_fi)
@@ -222,6 +240,12 @@ def run(rep: Report, tier: str) -> None:
         rep.check(len(flt.param_names) == 2 and tkey(fargs.get(flt.param_names[1], ("unk", ""))) == tkey(want), rd, CD, init_fi.qualname, "from filter receives from_date.year", f"the from filter is called with {dict((k, show(v)) for k, v in fargs.items() if k != flt.param_names[0])}; expected exactly from_date.year", loc(fcalls[0]))
     else:
         rep.violation(rd, CD, init_fi.qualname, "from filter applied once", f"_filter_yearly_gain_loss_by_year is applied {len(fcalls)} times", loc(init_fi.node))
+
+    # the detail table the summary is compared with is the window-filtered gain/loss set: its iterator must cut on the same (own, local) date as the summary loop
+    from . import c10
+
+    rh = rep.rule("C06.h", "the detail fractions shown are those up to the to-date on the event's own calendar date (entry-set iterator), like the summary's cut", floor=2)
+    c10.check_iterator_window(rep, rh, m, "the detail table would be cut at another day boundary than the yearly summary: lines no longer equal the sum of the fractions shown")
 
     # ---------------------------------------------------------------- C06.e
     from .c13 import check_summary_writers
